@@ -53,6 +53,14 @@ CHECKS.update({
    text='All single characters, all pairs over a 14-symbol alphabet and all strings up to length 5/6 over 7 symbols are escaped under both flags through both entry points into a buffer of exactly 3n+1 (6n+1) characters that ends at an inaccessible page; all strings up to length 6/7 over an 11-symbol alphabet (percent, hex digits in both cases, non-hex, plus, CR, LF) are unescaped in place under plus on/off and the four break modes in a buffer of exactly strlen+1 characters; results are compared with an independent reference and the escape/unescape round trip is checked; both character types.',
    ref='DESIGN.md section 3, C16', note=TRUST),
 })
+CHECKS.update({
+ 'C17': dict(cat='exploration', tech='bounded-exhaustive enumeration of key/value lists x flags x every capacity, of splitter strings, and of INT_MAX-edge length combinations, against a reference compose/dissect',
+   text='Every list of 1-2 items (plus a third) over an 11-string alphabet of keys/values (incl. NULL value, &, =, +, %, CR LF, 0xFF) is composed under both flags with every capacity 0..charsRequired+1 into a buffer ending at an inaccessible page, dissected back with matching options (default and ledger manager) and compared with the original list; all splitter strings up to length 6/8 over {&,=,a,+,%,4,1} are compared with a reference splitter; key/value lengths around INT_MAX/6 and INT_MAX/3 (strings mapped without using memory) must be refused, never wrapped.',
+   ref='DESIGN.md section 3, C17', note=TRUST + '; INT_MAX-edge family in the char API only'),
+ 'C18': dict(cat='exploration', tech='bounded-exhaustive enumeration of filenames (both directions, both char types) with exact documented-size guard-placed buffers; spec-DFA validity of the produced URI string',
+   text='All names up to length 5/6 over a 14-symbol alphabet (letters, drive colon, both slashes, space, %, #, ?, dot, hex digits, 0x01, 0xFF) are converted to a URI string in a buffer of exactly the documented size that ends at an inaccessible page, checked against the RFC 3986 automaton and the documented form, converted back into a buffer of exactly the documented size and compared with the original; short forms file:/x and file:c:/x are converted as well.',
+   ref='DESIGN.md section 3, C18', note=TRUST),
+})
 NOT_YET = {}
 def main():
     props = [json.loads(l) for l in open(os.path.join(VERIF, 'properties.jsonl'))]
